@@ -2,7 +2,49 @@ import MirModel
 import MirGen
 open Mir
 
-def handlers : List Handler := [Scores.handler, Matching.handler, HitMetric.handler, Chord.handler, Multipitch.handler, Beat.handler, Melody.handler, Intervals.handler, Pattern.handler, Onset.handler, Boundary.handler, Tempo.handler, Alignment.handler, IO.handler, Transcription.handler, Hierarchy.handler, Separation.handler, EvalProg.handler Gen.evalPrograms Gen.sigs EvalSpec.specs, Validate.handler, Segment.handler, ChordCompare.handler, ChordEval.handler, Key.handler, Effects.handlerFor MirGen.Effects.prog MirGen.Effects.names MirGen.Effects.table]
+/-- a regex sent by the harness (the translator's own conversion of Python's parse tree, harness/translate/regex.py
+    `wire`): ["lit", cp] | ["cls", neg, [[lo, hi], …]] | ["seq", a, b] | ["alt", a, b] | ["star", a] | ["rep", a, lo, hi] |
+    ["eps"] | ["any"] | ["bos"] | ["eosNl"] | ["eos"] -/
+partial def regexOfVal : Val → Option Rx.Regex
+  | .list [.str "eps"] => some .eps
+  | .list [.str "any"] => some .any
+  | .list [.str "bos"] => some .bos
+  | .list [.str "eosNl"] => some .eosNl
+  | .list [.str "eos"] => some .eos
+  | .list [.str "lit", c] => c.asNat?.map fun n => .lit (Char.ofNat n)
+  | .list [.str "cls", .bool neg, .list rs] => do
+      let rs ← rs.mapM fun r =>
+        match r with
+        | .list [lo, hi] => do
+            let lo ← lo.asNat?; let hi ← hi.asNat?
+            some (Char.ofNat lo, Char.ofNat hi)
+        | _ => none
+      some (.cls neg rs)
+  | .list [.str "seq", a, b] => do some (.seq (← regexOfVal a) (← regexOfVal b))
+  | .list [.str "alt", a, b] => do some (.alt (← regexOfVal a) (← regexOfVal b))
+  | .list [.str "star", a] => do some (.star (← regexOfVal a))
+  | .list [.str "rep", a, lo, hi] => do some (.rep (← regexOfVal a) (← lo.asNat?) (← hi.asNat?))
+  | _ => none
+
+/-- `chord.re_match s` / `chord.re_fullmatch s`: the regenerated `CHORD_RE` run by the regex matcher;
+    `chord.re_match_dollar s`: the same with every `\Z` replaced by `$`;
+    `rx.match r s` / `rx.fullmatch r s`: the matcher on an arbitrary regex (validates the regex semantics and the
+    translator's reading of Python's parse tree against `re` on random patterns) -/
+def chordReHandler : Handler := fun fn args =>
+  match fn, args with
+  | "chord.re_match", [s] => (s.asStr?).map fun s => .ok (.bool (Rx.matchPrefix Gen.chordRe s.toList))
+  | "chord.re_fullmatch", [s] => (s.asStr?).map fun s => .ok (.bool (Rx.fullMatch Gen.chordRe s.toList))
+  | "chord.re_match_dollar", [s] =>
+      (s.asStr?).map fun s => .ok (.bool (Rx.matchPrefix Gen.chordRe.dollarize s.toList))
+  | "rx.match", [r, s] => do
+      let r ← regexOfVal r; let s ← s.asStr?
+      some (.ok (.bool (Rx.matchPrefix r s.toList)))
+  | "rx.fullmatch", [r, s] => do
+      let r ← regexOfVal r; let s ← s.asStr?
+      some (.ok (.bool (Rx.fullMatch r s.toList)))
+  | _, _ => none
+
+def handlers : List Handler := [chordReHandler, Scores.handler, Matching.handler, HitMetric.handler, Chord.handler, Multipitch.handler, Beat.handler, Melody.handler, Intervals.handler, Pattern.handler, Onset.handler, Boundary.handler, Tempo.handler, Alignment.handler, IO.handler, Transcription.handler, Hierarchy.handler, Separation.handler, SeparationLS.handler, EvalProg.handler Gen.evalPrograms Gen.sigs EvalSpec.specs, Validate.handler, Segment.handler, ChordCompare.handler, ChordEval.handler, Key.handler, Effects.handlerFor MirGen.Effects.prog MirGen.Effects.names MirGen.Effects.table, Mir.Gen.Scalars.handler]
 
 def dispatch (fn : String) (args : List Val) : Option (Py Val) :=
   handlers.firstM fun h => h fn args
